@@ -395,7 +395,8 @@ Definition put_some {A} (f : A -> val) (o : option A) : val :=
 Record case := mkCase {
   c_tree : res; c_r : pos; c_a : pos; c_rel : list text; c_rel_str : text;
   c_els : list text; c_vroot : option text; c_script : text; c_app : option text;   (* c_app: request.host_url *)
-  c_host_ok : bool }.                     (* urlsplit(rel_str) does not raise ValueError *)
+  c_host_ok : bool;                       (* urlsplit(rel_str) does not raise ValueError *)
+  c_more : list pos }.                    (* three more resources whose URLs are asked of the SAME request object *)
 
 (* the absolute string that is equivalent to looking [rel_str] up from [a] *)
 Definition abs_string (root : res) (a : pos) (rel_str : text) : out text :=
@@ -418,7 +419,8 @@ Definition model_obs (m : url_mode) (c : case) : list val :=
     put_out put_text (resource_url m root r (c_els c) (c_vroot c) (c_script c) (c_app c));
     put_out put_text (request_resource_path m root r (c_els c) (c_vroot c) (c_script c));
     put_out put_found (virtual_root m root r (c_vroot c));
-    put_out put_back (request_back m root r (c_vroot c)) ].
+    put_out put_back (request_back m root r (c_vroot c)) ]
+  ++ map (fun p => put_out put_text (resource_url m root p [] (c_vroot c) (c_script c) (c_app c))) (c_more c).
 
 (* what the property demands of each observation ([] = nothing) *)
 Definition spec_obs (c : case) : list val :=
@@ -456,16 +458,22 @@ Definition spec_obs (c : case) : list val :=
     | _, _, _ => none_val
     end;
     match is_inside with Some v => put_found (FoundAt v) | None => none_val end;
-    match is_inside with Some _ => put_back (r, [], Some r) | None => none_val end ].
+    match is_inside with Some _ => put_back (r, [], Some r) | None => none_val end ]
+  ++ map (fun p =>
+            match good_resource root p, vt, c_app c, decode_path_info (c_script c) with
+            | Some names, Some vt, Some host, Ok d =>
+                put_text (host ++ Percent.quote c07_script_safe (Utf8.encode d) ++ spec_virtual_path root p names vt)
+            | _, _, _, _ => none_val
+            end) (c_more c).
 
 Definition get_case (v : val) : option case :=
   match v with
-  | VL [t; r; a; rel; VT rel_str; els; vr; VT sn; app; hok] =>
+  | VL [t; r; a; rel; VT rel_str; els; vr; VT sn; app; hok; more] =>
       olet t := get_res t in olet r := get_pos r in olet a := get_pos a in
       olet rel := get_texts rel in olet els := get_texts els in
       olet vr := get_opt get_text vr in olet app := get_opt get_text app in
-      olet hok := get_bool hok in
-      Some (mkCase t r a rel rel_str els vr sn app hok)
+      olet hok := get_bool hok in olet more := get_list_of get_pos more in
+      Some (mkCase t r a rel rel_str els vr sn app hok more)
   | _ => None
   end.
 
